@@ -1449,6 +1449,47 @@ func genWorldC11(seed uint64, tornOthers bool) *World {
 		}
 		w.Tasks[t] = ops
 	}
+	if r.pct(25) {
+		// Symmetric tasks: every task does what task 0 does - the same calls in the same
+		// order, on the shared object and on its OWN copies of task 0's objects. Tasks of
+		// equal length reach the same phase of the same code at about the same time,
+		// which is when narrow windows (a first call still filling a table the second
+		// one reads) are met; tasks of unequal length rarely overlap there.
+		base := w.Tasks[0]
+		own := map[int]bool{}
+		for _, op := range base {
+			if op.Kind != "gc" && !(shared >= 0 && op.Obj == shared) {
+				own[op.Obj] = true
+			}
+		}
+		for t := 1; t < ntasks; t++ {
+			remap := map[int]int{}
+			nobj := len(w.Objects)
+			for o := 0; o < nobj; o++ { // in index order: the world is a function of the seed
+				if !own[o] {
+					continue
+				}
+				remap[o] = len(w.Objects)
+				w.Objects = append(w.Objects, w.Objects[o])
+				w.Shared = append(w.Shared, false)
+			}
+			ops := make([]Op, 0, len(base))
+			for _, op := range base {
+				if n, ok := remap[op.Obj]; ok && op.Kind != "gc" {
+					op.Obj = n
+				}
+				ops = append(ops, op)
+			}
+			if r.pct(30) && len(ops) > 1 {
+				// … or the same calls one position apart
+				ops = append(ops[1:len(ops):len(ops)], ops[0])
+				if ops[len(ops)-1].Kind == "build" {
+					ops = append([]Op{ops[len(ops)-1]}, ops[:len(ops)-1]...)
+				}
+			}
+			w.Tasks[t] = ops
+		}
+	}
 	// limit Example() on a shared regex schema to the number of reference samples
 	if shared >= 0 && w.Objects[shared].Kind == "rschema" {
 		n := 0
